@@ -17,6 +17,29 @@ package websocket
 //@ pred qInv(s *Stream) =
 //@   (forall j :: 0 <= j && j < len(s.pendingFrames) ==> s.pendingFrames[j] != nil)
 
+// Everything queued is ready for the wire, lives in its own storage and apart from the write buffer.
+//@ pred wInv(s *Stream) =
+//@   s.codecConn != nil && sonic.ccInv(s.codecConn) &&
+//@   (forall j :: 0 <= j && j < len(s.pendingFrames) ==> poolFrame(s.pendingFrames[j])) &&
+//@   (forall j :: 0 <= j && j < len(s.pendingFrames) ==> frameWF(*s.pendingFrames[j])) &&
+//@   (forall j :: 0 <= j && j < len(s.pendingFrames) ==> ((s.role == RoleClient) == (((*s.pendingFrames[j])[1] & 128) != 0))) &&
+//@   (forall j :: 0 <= j && j < len(s.pendingFrames) ==>
+//@        disjoint((*s.pendingFrames[j])[0:cap(*s.pendingFrames[j])], s.codecConn.dst.data[0:cap(s.codecConn.dst.data)])) &&
+//@   (forall j, k :: 0 <= j && j < k && k < len(s.pendingFrames) ==>
+//@        disjoint((*s.pendingFrames[j])[0:cap(*s.pendingFrames[j])], (*s.pendingFrames[k])[0:cap(*s.pendingFrames[k])]))
+
+// f shares no storage with the write buffer or with the first n queued frames.
+//@ pred apart2(s *Stream, f *Frame, n int) =
+//@   disjoint((*f)[0:cap(*f)], s.codecConn.dst.data[0:cap(s.codecConn.dst.data)]) &&
+//@   (forall j :: 0 <= j && j < n ==> f != s.pendingFrames[j]) &&
+//@   (forall j :: 0 <= j && j < n ==> disjoint((*f)[0:cap(*f)], (*s.pendingFrames[j])[0:cap(*s.pendingFrames[j])]))
+
+// A frame that shares no storage with the write buffer or with anything queued.
+//@ pred apart(s *Stream, f *Frame) =
+//@   disjoint((*f)[0:cap(*f)], s.codecConn.dst.data[0:cap(s.codecConn.dst.data)]) &&
+//@   (forall j :: 0 <= j && j < len(s.pendingFrames) ==> f != s.pendingFrames[j]) &&
+//@   (forall j :: 0 <= j && j < len(s.pendingFrames) ==> disjoint((*f)[0:cap(*f)], (*s.pendingFrames[j])[0:cap(*s.pendingFrames[j])]))
+
 //@ func ext:sync.(*Pool).Get
 //@   trusted
 //@   modifies nothing
@@ -34,6 +57,7 @@ package websocket
 //@   ensures [frame] poolFrame(result) && (*result)[0] == 0 && fresh(*result)
 //@   ensures [frame-only] unchanged_except(*result)
 //@   ensures [client-mask] (*result)[1] == ((s.role == RoleClient) ? 128 : 0)
+//@   modifies nothing
 
 //@ func (*Stream).releaseFrame
 //@   prop C16
@@ -78,6 +102,7 @@ package websocket
 //@   let ext = (((*f)[1] & 127) == 127) ? 8 : ((((*f)[1] & 127) == 126) ? 2 : 0)
 //@   let off = 2 + ext + ((((*f)[1] & 128) != 0) ? 4 : 0)
 //@   let total = off + declLen(*f)
+//@   // masking f leaves the frames already queued as they were
 //@   ensures [queued] len(s.pendingFrames) == old(len(s.pendingFrames)) + 1 && s.pendingFrames[old(len(s.pendingFrames))] == f
 //@   ensures [order] forall j :: 0 <= j && j < old(len(s.pendingFrames)) ==> s.pendingFrames[j] == old(s.pendingFrames[j])
 //@   // exactly header + declared payload will be written: nothing trailing from an earlier use
@@ -89,6 +114,7 @@ package websocket
 //@   ensures [server-plain] s.role != RoleClient ==> (forall k :: 0 <= k && k < total ==> (*f)[k] == old((*f)[k]))
 //@   ensures [frame-only] unchanged_except(old(*f))
 //@   ensures [inv] qInv(s) && s.state == old(s.state)
+//@   modifies *f, mem(*f), s.pendingFrames, memcap(s.pendingFrames)
 
 // Close codes travel big-endian in the first two payload bytes.
 //@ func EncodeCloseCode
@@ -194,3 +220,84 @@ package websocket
 //@   ensures [single-close] err != nil && old(s.state) == StateClosedByUs ==> len(s.pendingFrames) == n0
 //@   ensures [order] forall j :: 0 <= j && j < n0 ==> s.pendingFrames[j] == old(s.pendingFrames[j])
 //@   ensures [inv] qInv(s)
+
+// --- the write side: queue and flush (C16 order and completeness, C08 gates) ----------------
+
+// Flush hands the queued frames to the connection one by one, first queued first, each one
+// completely (WriteNext returns only when the whole frame is out or the transport failed).
+//@ func (*Stream).Flush
+//@   prop C16, C08
+//@   // the queue invariant is established frame by frame by prepareWrite; that it survives until
+//@   // the flush (pooled frames share no storage) is assumed here, not proved
+//@   rely wInv(s)
+//@   loop 1 invariant 0 <= i && i <= len(s.pendingFrames) && flushed == i && (err != nil ==> false)
+//@   loop 1 invariant len(s.pendingFrames) == old(len(s.pendingFrames)) && ptr(s.pendingFrames) == old(ptr(s.pendingFrames)) && s.state == old(s.state)
+//@   loop 1 invariant forall j :: 0 <= j && j < len(s.pendingFrames) ==> s.pendingFrames[j] == old(s.pendingFrames[j])
+//@   loop 1 invariant s.codecConn != nil && sonic.ccInv(s.codecConn)
+//@   loop 1 invariant forall j :: i <= j && j < len(s.pendingFrames) ==> poolFrame(s.pendingFrames[j])
+//@   loop 1 invariant forall j :: i <= j && j < len(s.pendingFrames) ==> frameWF(*s.pendingFrames[j])
+//@   loop 1 invariant forall j :: i <= j && j < len(s.pendingFrames) ==> ((s.role == RoleClient) == (((*s.pendingFrames[j])[1] & 128) != 0))
+//@   loop 1 invariant forall j :: i <= j && j < len(s.pendingFrames) ==>
+//@        disjoint((*s.pendingFrames[j])[0:cap(*s.pendingFrames[j])], s.codecConn.dst.data[0:cap(s.codecConn.dst.data)])
+//@   loop 1 invariant forall j, k :: 0 <= j && j < k && k < len(s.pendingFrames) ==>
+//@        disjoint((*s.pendingFrames[j])[0:cap(*s.pendingFrames[j])], (*s.pendingFrames[k])[0:cap(*s.pendingFrames[k])])
+//@   loop 1 decreases len(s.pendingFrames) - i
+//@   // in order: the i-th call gets the i-th queued frame, still exactly header + declared payload
+//@   assert call WriteNext: wireFrame(s, s.pendingFrames[i]) && alias(arg1, *s.pendingFrames[i])
+//@   ensures [drained] err == nil ==> len(s.pendingFrames) == 0
+//@   // what is left is the unsent tail of the queue, untouched and in the same order
+//@   ensures [kept-in-order] len(s.pendingFrames) <= old(len(s.pendingFrames)) &&
+//@           ptr(s.pendingFrames) == old(ptr(s.pendingFrames)) + (old(len(s.pendingFrames)) - len(s.pendingFrames))
+//@   ensures [queue-cells] unchanged_except(s.pendingFrames[0:0])
+//@   ensures [state] s.state == old(s.state)
+//@   ensures [inv] wInv(s)
+
+// Write: one unfragmented frame per message, exactly the caller's bytes, only while open and
+// within the size limit; otherwise nothing is queued and nothing is flushed.
+//@ func (*Stream).Write
+//@   prop C16, C08, C15
+//@   requires qInv(s) && len(b) <= 1<<40 && (s.role == RoleClient || s.role == RoleServer)
+//@   let n0  = len(s.pendingFrames)
+//@   let ext = (len(b) > 65535) ? 8 : ((len(b) > 125) ? 2 : 0)
+//@   let off = 2 + ext + ((s.role == RoleClient) ? 4 : 0)
+//@   remember call (*Stream).Flush: flushing = true
+//@   // gate: Flush is reached only while open and within the limit
+//@   assert call (*Stream).Flush: len(b) <= s.maxMessageSize && s.state == StateActive && old(s.state) == StateActive
+//@   // the frame queued last is FIN + the message type, declares len(b) bytes in the shortest encoding, and is exactly that long
+//@   assert call (*Stream).Flush: len(s.pendingFrames) == n0 + 1 && wireFrame(s, s.pendingFrames[n0]) &&
+//@          (*s.pendingFrames[n0])[0] == 128 | (byte(messageType) & 15) && len(*s.pendingFrames[n0]) == off + len(b) &&
+//@          (len(b) <= 125 ==> int((*s.pendingFrames[n0])[1] & 127) == len(b)) &&
+//@          (len(b) > 125 && len(b) <= 65535 ==> (*s.pendingFrames[n0])[1] & 127 == 126) &&
+//@          (len(b) > 65535 ==> (*s.pendingFrames[n0])[1] & 127 == 127)
+//@   // ... carrying the caller's bytes (XOR the key stored in front of them for a client)
+//@   assert call (*Stream).Flush: s.role == RoleServer ==> (forall k :: 0 <= k && k < len(b) ==> (*s.pendingFrames[n0])[off + k] == old(b[k]))
+//@   assert call (*Stream).Flush: s.role == RoleClient ==> (forall k :: 0 <= k && k < len(b) ==>
+//@          (*s.pendingFrames[n0])[off + k] == old(b[k]) ^ (*s.pendingFrames[n0])[off - 4 + (k & 3)])
+//@   ensures [too-big] len(b) > old(s.maxMessageSize) ==> result == ErrMessageTooBig && len(s.pendingFrames) == n0 && !flushing
+//@   ensures [refused] len(b) <= old(s.maxMessageSize) && old(s.state) != StateActive ==>
+//@           result == sonicerrors.ErrCancelled && len(s.pendingFrames) == n0 && !flushing && s.state == old(s.state)
+
+// WriteFrame: a caller-built frame (from AcquireFrame, so that a client's frame has room for the
+// key) goes out as header + declared payload; refused and recycled when not open.
+//@ func (*Stream).WriteFrame
+//@   prop C16, C08
+//@   requires qInv(s) && poolFrame(f) && hdrFits(*f) && ((s.role == RoleClient) == ((*f)[1] & 128 != 0))
+//@   let n0 = len(s.pendingFrames)
+//@   remember call (*Stream).Flush: flushing = true
+//@   assert call (*Stream).Flush: old(s.state) == StateActive && len(s.pendingFrames) == n0 + 1 && s.pendingFrames[n0] == f && wireFrame(s, f) &&
+//@          (*f)[0] == old((*f)[0]) && (*f)[1] == old((*f)[1])
+//@   ensures [refused] old(s.state) != StateActive ==> result == sonicerrors.ErrCancelled && len(s.pendingFrames) == n0 && !flushing
+
+// Close: starts the closing handshake once; afterwards application writes are refused (see Write).
+//@ func (*Stream).Close
+//@   prop C08
+//@   requires qInv(s) && len(reason) <= 123 && (s.role == RoleClient || s.role == RoleServer)
+//@   let n0 = len(s.pendingFrames)
+//@   remember call (*Stream).Flush: flushing = true
+//@   assert call (*Stream).Flush: old(s.state) == StateActive && s.state == StateClosedByUs && len(s.pendingFrames) == n0 + 1 &&
+//@          (*s.pendingFrames[n0])[0] == 136 && int((*s.pendingFrames[n0])[1] & 127) == 2 + len(reason) && wireFrame(s, s.pendingFrames[n0])
+//@   assert call (*Stream).Flush: s.role == RoleServer ==>
+//@          int((*s.pendingFrames[n0])[2])*256 + int((*s.pendingFrames[n0])[3]) == int(cc)
+//@   ensures [once] old(s.state) == StateClosedByUs ==> result == sonicerrors.ErrCancelled && len(s.pendingFrames) == n0 && !flushing && s.state == old(s.state)
+//@   ensures [over] old(s.state) != StateActive && old(s.state) != StateClosedByUs && old(s.state) != StateHandshake ==>
+//@           result == io.EOF && len(s.pendingFrames) == n0 && !flushing && s.state == old(s.state)
